@@ -50,6 +50,19 @@ def f32ok(v):
         return False
 
 
+def r32(v):
+    return struct.unpack("f", struct.pack("f", v))[0]
+
+
+def next32(v, k):
+    """The float32 number k steps (k = -1, 0, 1) after the float32 number v."""
+    i = struct.unpack("i", struct.pack("f", v))[0]
+    if k == 0 or v == 0:
+        return v
+    i += k if v > 0 else -k
+    return struct.unpack("f", struct.pack("i", i))[0]
+
+
 def hx(v):
     return float(v).hex()
 
@@ -242,6 +255,23 @@ class Gen:
                     self.pair(base, j, cls="pert", what=what, k=k)
                 else:
                     self.pair(j, base, cls="pert", what=what, k=k)
+            # float32 extents: np.isclose then works in float32 (both float32) or mixes precisions
+            if all(f32ok(v) for v in vals):
+                e32 = {"cont": r.choice(["tuple", "array32"]), "nums": [{"k": "f32", "v": hx(v)} for v in vals]}
+                b32 = self.add({"t": "area", "crs": sp[0], "w": {"k": "int", "v": w}, "h": {"k": "int", "v": h}, "ext": e32}, fam=fam, vals=vals, w=w, h=h, f32=True)
+                for _ in range(3):
+                    k = r.randrange(4)
+                    tol = ATOL_A + RTOL_A * abs(vals[k])
+                    nv = r32(vals[k] + r.choice([-1, 1]) * tol * (1 + r.randint(-4, 4) * 2.0 ** -21))
+                    if nv == vals[k]:
+                        continue
+                    v2 = list(vals)
+                    v2[k] = nv
+                    p32 = self.add({"t": "area", "crs": sp[0], "w": {"k": "int", "v": w}, "h": {"k": "int", "v": h},
+                                    "ext": {"cont": "tuple", "nums": [{"k": "f32", "v": hx(v)} for v in v2]}}, fam=fam, vals=v2, w=w, h=h, f32=True)
+                    for (x, y) in r.sample([(b32, p32), (p32, b32), (base, p32), (p32, base)], 2):
+                        self.pair(x, y, cls="pert", what="ext_boundary_f32", k=k)
+                ctx.count("area_f32_boundary")
             # histories on this area
             st = r.choice(variants)
             self.area_hist.append({"start": st, "ops": [["slice", self.spell_slice(0, h, h), self.spell_slice(0, w, w)], ["copy"], ["hash"],
@@ -293,6 +323,34 @@ class Gen:
                 self.keys.append([s1, t1, k1, s2, t2, k2])
                 self.kmeta.append({"mode": mode})
 
+    def f32_tiny(self):
+        """np.isclose in float32 differs from float64 evaluation only where |x - y| is of the order of atol: extents of
+        magnitude 1e-9..1e-5 (degrees), one value moved to the float32 numbers around y +- tolerance."""
+        r, ctx = self.r, self.ctx
+        crs = {"k": "str", "v": PROJ_FAMILIES[6]}
+        for _ in range(ctx.n(40, 400)):
+            vals = [r32(r.uniform(-1, 1) * 10.0 ** r.randint(-9, -5)) for _ in range(4)]
+            vals[2] = r32(vals[0] + abs(vals[2]) + 1e-9)
+            vals[3] = r32(vals[1] + abs(vals[3]) + 1e-9)
+            if vals[2] == vals[0] or vals[3] == vals[1]:
+                continue
+            w, h = r.randint(1, 9), r.randint(1, 9)
+            mk = lambda vs, kind: self.add({"t": "area", "crs": crs, "w": {"k": "int", "v": w}, "h": {"k": "int", "v": h},
+                                            "ext": {"cont": "tuple", "nums": [{"k": kind, "v": hx(v)} for v in vs]}},
+                                           fam=PROJ_FAMILIES[6], vals=list(vs), w=w, h=h, f32=(kind == "f32"))
+            b32, b64 = mk(vals, "f32"), mk(vals, "float")
+            k = r.randrange(4)
+            tol = ATOL_A + RTOL_A * abs(vals[k])
+            nv = next32(r32(vals[k] + r.choice([-1, 1]) * tol), r.choice([-1, 0, 0, 1]))
+            if nv == vals[k]:
+                continue
+            v2 = list(vals)
+            v2[k] = nv
+            p32 = mk(v2, "f32")
+            for (x, y) in [(b32, p32), (p32, b32), (b64, p32), (p32, b64)]:
+                self.pair(x, y, cls="pert", what="ext_boundary_f32", k=k)
+            ctx.count("area_f32_tiny")
+
     def spell_slice(self, a, b, n):
         """A python slice (start, stop) that normalises to [a, b) on an axis of length n."""
         r = self.r
@@ -309,7 +367,10 @@ class Gen:
         else:
             lon = [[r.uniform(-180, 180) for _ in range(cols)] for _ in range(rws)]
             lat = [[r.uniform(-90, 90) for _ in range(cols)] for _ in range(rws)]
-        if style == "f4":
+        if style == "f4small":
+            lon = [[r.uniform(-1, 1) * 10.0 ** r.randint(-8, -3) for _ in range(cols)] for _ in range(rws)]
+            lat = [[r.uniform(-1, 1) * 10.0 ** r.randint(-8, -3) for _ in range(cols)] for _ in range(rws)]
+        if style in ("f4", "f4small"):
             lon = [[struct.unpack("f", struct.pack("f", v))[0] for v in row] for row in lon]
             lat = [[struct.unpack("f", struct.pack("f", v))[0] for v in row] for row in lat]
         if style == "nan":
@@ -320,12 +381,12 @@ class Gen:
             lat = [list(lat[0]) for _ in range(rws)]
         return lon, lat
 
-    def swath_spec(self, kind, lon, lat, ndim=2, dtype="f8", crs=None, chunks=2):
+    def swath_spec(self, kind, lon, lat, ndim=2, dtype="f8", crs=None, chunks=2, attr=None):
         if ndim == 1:
             flat_lon = [v for row in lon for v in row]
             flat_lat = [v for row in lat for v in row]
             lon, lat = [flat_lon], [flat_lat]
-        return {"t": "swath", "kind": kind, "ndim": ndim, "dtype": dtype, "crs": crs, "chunks": chunks,
+        return {"t": "swath", "kind": kind, "ndim": ndim, "dtype": dtype, "crs": crs, "chunks": chunks, "attr": attr,
                 "lon": [[hx(v) for v in row] for row in lon], "lat": [[hx(v) for v in row] for row in lat]}
 
     def swaths(self):
@@ -333,9 +394,9 @@ class Gen:
         nb = ctx.n(70, 700)
         for b in range(nb):
             rws, cols = r.randint(1, 5), r.randint(1, 6)
-            style = r.choice(["rand", "rand", "int", "f4", "nan", "rowsame"])
+            style = r.choice(["rand", "rand", "int", "f4", "f4small", "nan", "rowsame"])
             ndim = 1 if r.random() < 0.2 else 2
-            dtype = "f4" if style == "f4" else "f8"
+            dtype = "f4" if style in ("f4", "f4small") else "f8"
             lon, lat = self.swath_data(rws, cols, style)
             ctx.count("swath_%s_%dd" % (style, ndim))
             meta = dict(lon=lon, lat=lat, ndim=ndim, dtype=dtype, shape=(rws, cols))
@@ -356,13 +417,18 @@ class Gen:
             self.pair(d1, d2, cls="ident", what="container_xrdask")
             self.pair(d1, base, cls="cross", what="dask_vs_numpy")
             ctx.count("swath_spelling_xrdask")
+            xa1 = xa2 = None
+            if b % 3 == 0:
+                at = ["L%d" % b, "T%d" % b]
+                xa1 = self.add(self.swath_spec("xrattr", lon, lat, ndim, dtype, attr=at), kind="xrattr", **meta)
+                xa2 = self.add(self.swath_spec("xrattr", lon, lat, ndim, dtype, attr=at), kind="xrattr", **meta)
+                self.pair(xa1, xa2, cls="ident", what="container_xrattr")
+                ctx.count("swath_spelling_xrattr")
             # perturbations (float64 only where the tolerance is exercised)
             i, j = r.randrange(rws), r.randrange(cols)
             for what in ("coord_far", "coord_near", "coord_boundary"):
                 if style == "nan" and lon[i][j] != lon[i][j]:
                     break
-                if dtype == "f4" and what != "coord_far":
-                    continue
                 which = r.choice(["lon", "lat"])
                 src = lon if which == "lon" else lat
                 v = src[i][j]
@@ -375,7 +441,9 @@ class Gen:
                     d = tol * (1 + r.choice([0, 1e-12, -1e-12, 1e-9, -1e-9, 1e-6, -1e-6, 1e-15]))
                 nv = v + r.choice([-1, 1]) * d
                 if dtype == "f4":
-                    nv = struct.unpack("f", struct.pack("f", nv))[0]
+                    nv = r32(nv)
+                    if what == "coord_boundary":
+                        nv = next32(r32(v + r.choice([-1, 1]) * tol), r.choice([-1, 0, 0, 1]))
                 if nv == v:
                     continue
                 l2 = [list(row) for row in lon]
@@ -413,8 +481,11 @@ class Gen:
                 self.kmeta.append({"mode": "kw"})
             # histories (float64)
             if dtype == "f8":
-                for start_kind in (["np", "xr", "xrdask"] if (b % 2 == 0 or ctx.thorough) else [r.choice(["np", "xr", "xrdask"])]):
-                    start = {"np": base, "xr": variants["xr"], "xrdask": d1}[start_kind]
+                kinds = ["np", "xr", "xrdask"] if (b % 2 == 0 or ctx.thorough) else [r.choice(["np", "xr", "xrdask"])]
+                if xa1 is not None:
+                    kinds.append("xrattr")
+                for start_kind in kinds:
+                    start = {"np": base, "xr": variants["xr"], "xrdask": d1, "xrattr": xa1}[start_kind]
                     ops = []
                     cr, cc = rws, cols
                     for _ in range(r.randint(2, 8)):
@@ -459,7 +530,7 @@ class Gen:
             members = []
             y = r.randint(-50, 50) * res
             x0 = r.randint(-50, 50) * res
-            merge = r.random() < 0.35
+            merge = r.random() < 0.5
             for _ in range(r.randint(2, 5)):
                 h = r.randint(1, 4)
                 gap = 0 if (merge and r.random() < 0.7) else r.randint(1, 3) * res
@@ -744,6 +815,12 @@ def oracle(g, obs):
                 what = "hash(swath) != hash(SwathDefinition(swath.lons, swath.lats))"
             elif not all(r["fresh_eq"]):
                 what = "swath is not == a fresh swath of its own coordinates %s" % (r["fresh_eq"],)
+            if op[0] == "slice" and r["deq_prev"]:
+                pshape = steps[n - 1]["shape"] if n else obs["geos"][c["start"]].get("shape")
+                if pshape is not None and list(pshape) != list(r["shape"]):
+                    key = "C12.distinct.hash_attr_survives_slice" if r["kind"] == 3 else "C12.distinct.digest.swath_slice"
+                    res.append((key, "after %s: a slice of shape %s of a swath of shape %s keeps its digest" % ([o[0] for o in c["ops"][:n + 1]], r["shape"], pshape), "swath_hist", idx))
+                    break
             if op[0] in ("append", "concat") and r["deq_prev"]:
                 res.append(("C12.distinct.digest.swath_append", "after %s: appending rows did not change the digest" % ([o[0] for o in c["ops"][:n + 1]],), "swath_hist", idx))
                 break
@@ -815,12 +892,14 @@ def coq_geo(g, i, obs):
         nums = spec["ext"]["nums"]
         if spec["ext"]["cont"] == "array" and nums[0]["k"] == "int":
             pass        # int64 array: the numbers are still those integers
-        return "GA (area_of F64 (%d) (%d) (%d) (%s))" % (o["tok"], spec["w"]["v"], spec["h"]["v"], ", ".join(coq_num(n) for n in nums))
+        return "GA (area_of F64 (%d) (%d) (%d) (%s)) %s" % (o["tok"], spec["w"]["v"], spec["h"]["v"], ", ".join(coq_num(n) for n in nums),
+                                                            b(all(n["k"] == "f32" for n in nums)))
     if spec["t"] == "swath":
         lon, lat = spec["lon"], spec["lat"]
         if spec["ndim"] == 1:
             lon, lat = [[x] for x in lon[0]], [[x] for x in lat[0]]
-        return "GS (mk_swath (%d) (%d) %s %s (%d) (%d))" % (o["kind"], spec["ndim"], coq_rows(lon), coq_rows(lat), o["names"][0], o["names"][1])
+        return "GS (mk_swath (%d) (%d) %s %s (%d) (%d)) %s" % (o["kind"], spec["ndim"], coq_rows(lon), coq_rows(lat), o["names"][0], o["names"][1],
+                                                              b(spec.get("dtype") == "f4"))
     return None
 
 
@@ -854,10 +933,6 @@ def build_coq(ctx, g, obs, skip):
     for idx, ((i, j), pm, r) in enumerate(zip(g.pairs, g.pmeta, obs["pairs"])):
         if "error" in r or not (okgeo(i) and okgeo(j)) or ("pair", idx) in skip:
             continue
-        # float32 arithmetic inside np.isclose is not modelled: all-float32 extents / float32 swaths only on identical or far pairs
-        f32 = g.meta[i].get("f32") or g.meta[j].get("f32") or g.meta[i].get("dtype") == "f4"
-        if f32 and pm["what"] in ("ext_near", "ext_boundary", "coord_near", "coord_boundary"):
-            continue
         rels = [r["hash"], r["digest"]] + [r[k] for k in ("hashargs", "daskname") if k in r]
         rels += [v for k, v in sorted((r.get("keys") or {}).items()) if k != "error"]
         c12, c21 = r.get("c12", True), r.get("c21", True)
@@ -878,7 +953,11 @@ def build_coq(ctx, g, obs, skip):
     for idx, (c, steps) in enumerate(zip(g.area_hist, obs["area_hist"])):
         if any("error" in s for s in steps) or not okgeo(c["start"]) or not all(okgeo(op[1]) for op in c["ops"] if op[0] == "eq"):
             continue
-        if g.meta[c["start"]].get("f32"):
+        # AreaDefinition.__init__ computes (x1 - x0) / float(width) with the caller's scalars: np.float32 numbers (also next to
+        # Python floats, which numpy treats as weak) make the pixel size a float32, so partial slices of such an area carry
+        # float32-rounded extents.  That path is not modelled (the property oracle above still judges these histories).
+        if any(n["k"] == "f32" for n in g.geos[c["start"]]["ext"]["nums"]):
+            ctx.count("area_hist_not_modelled_float32_pixel_size")
             continue
         need = [c["start"]] + [op[1] for op in c["ops"] if op[0] == "eq"]
 
@@ -942,16 +1021,22 @@ def build_coq(ctx, g, obs, skip):
 
 # ---------------------------------------------------------------------------------------------- run / replay
 def run(ctx):
-    ctx.rule = ("pool of areas (10 PROJ strings + 7 EPSG codes; sizes 1..60; integer, dyadic, decimal, random, zero-containing, large and "
-                "flipped extents) and swaths (1x1..5x6, 1-D/2-D, float64/float32, NaN, identical rows), each in several spellings "
-                "(crs: string/reordered/dict/CRS object/WKT/EPSG int; sizes: int/numpy ints/float; extents: tuple/list/array of "
-                "int/float/np.float64/np.float32/-0.0; swaths: list/array/F-order/non-contiguous view/xarray/xarray+dask); pairs = identical "
-                "spellings, one perturbed parameter (crs, shape, value far beyond / within / at the np.isclose boundary); cache-key triples over 24 "
-                "kwargs dicts; random histories of hash/==/append/concatenate/slice (full, partial, negative, None bounds)/copy on areas, swaths "
-                "(numpy, xarray, xarray+dask) and stacked areas. A case is non-trivial when the two spellings differ or a history mutates; "
-                "distinct = distinct (pair of specs | history)")
+    ctx.rule = ("GENERATION (all from VERIF_SEED): a pool of geometries given by their SPELLED constructor arguments. Areas: 10 PROJ strings + 7 EPSG "
+                "codes; sizes 1..60; extents integer / dyadic / decimal / random / zero-containing / large / geographic / flipped; spellings crs = "
+                "string, reordered string, dict (numbers or strings), CRS object, WKT, EPSG int / from_epsg; sizes = int, numpy ints, float; extent = "
+                "tuple / list / array of int, float, np.float64, np.float32, -0.0. Swaths: 1x1..5x6, 1-D/2-D, float64 / float32 (incl. magnitudes "
+                "1e-8..1e-3), NaN, identical rows; containers list / array / F-order / non-contiguous view / xarray / xarray+dask / xarray with "
+                "attrs['hash']. PAIRS: identical parameters in two spellings; one parameter perturbed (crs, shape, reshape/flatten/broadcast, swath "
+                "crs, one value far beyond / well within / at the np.isclose boundary +-1e-15..1e-6 relative, float32 neighbours of the boundary in "
+                "float32-float32 and mixed precision). KEYS: (source, target, kwargs) triples over 27 kwargs dicts incl. reordered equal dicts. "
+                "HISTORIES: random sequences (2..8 calls) of hash / == / append / concatenate / slice (full, partial, negative, None, oversized bounds) / "
+                "copy on areas, swaths (numpy, xarray, xarray+dask, xarray+hash attrs) and stacked areas (appends that merge with the last member and "
+                "appends that do not), observed after every call without memoising; plus EVERY history up to a fixed length over a fixed call "
+                "alphabet on a 2x2 swath and a 46x48 area (see notes). NON-TRIVIAL: a pair whose two specs differ, a key triple, a history with at "
+                "least one mutating call (append/slice/copy); DISTINCT = distinct canonical JSON of the pair of specs / triple / history")
     g = Gen(ctx)
     g.areas()
+    g.f32_tiny()
     g.swaths()
     g.stacks()
     g.exhaustive()
